@@ -720,6 +720,8 @@ func main() {
 	if len(os.Args) > 1 {
 		n, _ = strconv.Atoi(os.Args[1])
 	}
+	bytesCases(r, thorough)
+	out.Flush()
 	stressScenarios(r, thorough)
 	fetchScenarios(r, thorough)
 	for i := 0; i < n; i++ {
